@@ -272,6 +272,12 @@ class TermBuilder:
             if r and r[1] == "builtins.reversed" and it.args:
                 t = self.term(it, self.cfg.for_init[id(for_stmt)])
                 return t if isinstance(t, Range) else None
+            if r and r[1] in ("builtins.enumerate", "builtins.zip"):
+                # for (i, x) in enumerate(xs): the index runs over range(len(xs))
+                if it.keywords or not it.args or any(isinstance(a, ast.Starred) for a in it.args) or (r[1] == "builtins.enumerate" and len(it.args) != 1):
+                    return None
+                n = tm.length(self.term(it.args[0], self.cfg.for_init[id(for_stmt)]))
+                return Range(tm.ZERO, n)
         return None
 
     # ------------------------------------------------------------ names
@@ -292,6 +298,8 @@ class TermBuilder:
                 if kind == "global":
                     mod, nm = fq.rsplit(".", 1)
                     st = self.ana.prog.modules[mod].globals.get(nm)
+                    if isinstance(st, ast.AnnAssign) and st.value is not None and isinstance(st.target, ast.Name):
+                        st = ast.copy_location(ast.Assign(targets=[st.target], value=st.value), st)     # NAME: int = 5
                     if isinstance(st, ast.Assign) and isinstance(st.value, ast.Constant) \
                             and self.ana.prog.modules[mod].global_assign_count.get(nm, 0) == 1:
                         return tm.as_term(st.value.value) if not isinstance(st.value.value, float) else tm.const(Fraction(repr(st.value.value)))
@@ -646,10 +654,22 @@ class TermBuilder:
         t = self.term(test, self.cfg.stmt_node[id(owner)])
         return t if pol else tm.negate(t)
 
+    @staticmethod
+    def accumulation(st, name=None):
+        """(op, addend expression) when the statement accumulates into a plain name: `x += e`, `x -= e`, or the spelled-out
+        `x = x + e`, `x = x - e` (same value; which object holds it is the ownership analysis' business, not the term's)."""
+        if isinstance(st, ast.AugAssign) and isinstance(st.target, ast.Name) and (name is None or st.target.id == name):
+            return st.op, st.value
+        if isinstance(st, ast.Assign) and len(st.targets) == 1 and isinstance(st.targets[0], ast.Name) and isinstance(st.value, ast.BinOp) \
+                and isinstance(st.value.op, (ast.Add, ast.Sub)) and isinstance(st.value.left, ast.Name) and st.value.left.id == st.targets[0].id \
+                and (name is None or st.targets[0].id == name):
+            return st.value.op, st.value.right
+        return None
+
     def _reduction(self, name, at: Node, defs: List[Node]) -> Optional[T]:
         at_loops = self.cfg.enclosing_loops(at)
-        init = [d for d in defs if not (d.kind == "stmt" and isinstance(d.ast, ast.AugAssign))]
-        augs = [d for d in defs if d.kind == "stmt" and isinstance(d.ast, ast.AugAssign)]
+        init = [d for d in defs if not (d.kind == "stmt" and self.accumulation(d.ast, name))]
+        augs = [d for d in defs if d.kind == "stmt" and self.accumulation(d.ast, name)]
         if len(init) != 1 or not augs:
             return None
         i0 = init[0]
@@ -661,8 +681,8 @@ class TermBuilder:
             return None
         acc = init_term
         for a in augs:
-            st: ast.AugAssign = a.ast
-            if not isinstance(st.op, ast.Add) and not isinstance(st.op, ast.Sub):
+            st_op, st_value = self.accumulation(a.ast, name)
+            if not isinstance(st_op, ast.Add) and not isinstance(st_op, ast.Sub):
                 return None
             loops = [l for l in self.cfg.enclosing_loops(a) if l not in at_loops]
             if not loops:
@@ -675,10 +695,10 @@ class TermBuilder:
                     return None
             binders = [self.binder_of(l) for l in loops]
             # value is built at the aug node; reads of `name` itself inside the value are not a reduction
-            if any(isinstance(x, ast.Name) and x.id == name for x in ast.walk(st.value)):
+            if any(isinstance(x, ast.Name) and x.id == name for x in ast.walk(st_value)):
                 return None
-            body = self.term(st.value, a)
-            if isinstance(st.op, ast.Sub):
+            body = self.term(st_value, a)
+            if isinstance(st_op, ast.Sub):
                 body = tm.neg(body)
             # guard relative to the outermost reduction loop header
             hdr = self.cfg.stmt_node[id(loops[0])]
@@ -1042,8 +1062,39 @@ class TermBuilder:
             self._comp_depth -= 1
 
     # ------------------------------------------------------------ calls
+    def _length_of_filled_local(self, e: ast.Call, at) -> Optional[T]:
+        """len(x) of a local list / array that is only ever written element-wise (x[i] = v): element stores do not change the
+        length, so it is the length of the (single) definition - `tasks = [None] * K; ...; len(tasks)` is K."""
+        if len(e.args) != 1 or e.keywords or not isinstance(e.args[0], ast.Name):
+            return None
+        name = e.args[0].id
+        muts = self.mutated.get(name)
+        if not muts or name in self.inplace_calls or name in self.fi.own_params:
+            return None
+        for m in muts:
+            if not isinstance(m, (ast.Assign, ast.AugAssign)):
+                return None                      # append / extend / pop ...: the length moves
+            tgts = m.targets if isinstance(m, ast.Assign) else [m.target]
+            for t in tgts:
+                for el in (t.elts if isinstance(t, (ast.Tuple, ast.List)) else [t]):
+                    if isinstance(el, ast.Subscript) and _root_name(el.value) == name:
+                        if isinstance(el.slice, ast.Slice) or (isinstance(el.slice, ast.Tuple) and any(isinstance(x, ast.Slice) for x in el.slice.elts)):
+                            return None          # slice assignment can resize a list
+        defs = self.rd.reaching(at, name)
+        if len(defs) != 1 or defs[0].kind != "stmt" or not isinstance(defs[0].ast, (ast.Assign, ast.AnnAssign)) or defs[0].ast.value is None:
+            return None
+        if any(isinstance(n, ast.Delete) and any(_root_name(t) == name for t in n.targets) for n in Resolver.walk_own(self.fi.node)):
+            return None
+        t = self.term(defs[0].ast.value, defs[0])
+        n = tm.length(t)
+        return None if (isinstance(n, App) and n.fn == "len") else n
+
     def _t_Call(self, e: ast.Call, at):
         c = self.ana.res.callee(self.fi, e)
+        if c.kind in ("external", "builtin") and c.target == "builtins.len":
+            n_ = self._length_of_filled_local(e, at)
+            if n_ is not None:
+                return n_
         args = [self.term(a, at) for a in e.args]
         kw = {k.arg: self.term(k.value, at) for k in e.keywords if k.arg is not None}
         if any(isinstance(a, ast.Starred) for a in e.args) and not any(k.arg is None for k in e.keywords):
@@ -1097,6 +1148,12 @@ class TermBuilder:
         if c.kind in ("external", "builtin", "global"):
             if c.target == "builtins.dict" and not args and kw:
                 return App("dict", [Tup([Lit(k), v]) for k, v in kw.items()])
+            if c.target in ("builtins.int", "builtins.float", "builtins.bool", "builtins.str") and len(args) == 1 and not kw \
+                    and isinstance(args[0], App) and args[0].fn in self.ana.prog.functions:
+                # int(f(...)) of a package function annotated `-> int` is f(...): a redundant cast
+                g_ = self.ana.prog.functions[args[0].fn]
+                if g_.node.returns is not None and ast.unparse(g_.node.returns) == c.target.split(".")[1]:
+                    return args[0]
             t = tm.make_app(c.target, args, kw)
             t = self._apply_mapped_functions(t, at)
             if isinstance(t, (Lst, Cat, Rep, Comp)):
